@@ -970,20 +970,24 @@ theorem lagReset_forget (st : List (PState α)) (ps : List (Particle α)) :
     | nil => rfl
     | cons s st => simp only [List.map_cons, lagReset, ih]; rfl
 
-/-- `LagElement.update` touches nothing but integrate, t, x, y, z — and K_T, which it zeroes for a
-    particle within 0.5 K of the plume water at the first row (`heatOff`) -/
-theorem lagReset_noState (st : List (PState α)) (ps : List (Particle α)) (hh : ∀ s ∈ st, s.heatOff = false) :
+/-- `LagElement.update` followed by the restoration of `K_T` leaves everything but integrate, t, x, y, z -/
+theorem lagReset_noState (st : List (PState α)) (ps : List (Particle α)) :
     (lagReset st ps).map Particle.noState = ps.map Particle.noState := by
   induction ps generalizing st with
   | nil => cases st <;> rfl
   | cons p ps ih =>
     cases st with
     | nil => rfl
-    | cons s st =>
-      have h1 : s.heatOff = false := hh s (List.mem_cons_self)
-      have h2 : ∀ x ∈ st, x.heatOff = false := fun x hx => hh x (List.mem_cons_of_mem _ hx)
-      simp only [List.map_cons, lagReset, ih st h2, h1]
-      rfl
+    | cons s st => simp only [List.map_cons, lagReset, ih]; rfl
+
+theorem lagReset_K_T (st : List (PState α)) (ps : List (Particle α)) :
+    (lagReset st ps).map (·.K_T) = ps.map (·.K_T) := by
+  induction ps generalizing st with
+  | nil => cases st <;> rfl
+  | cons p ps ih =>
+    cases st with
+    | nil => rfl
+    | cons s st => simp only [List.map_cons, lagReset, ih]
 
 end
 
